@@ -287,3 +287,95 @@ func callShort(cc *ssa.CallCommon) string {
 	}
 	return cc.Value.Name()
 }
+
+// checkOwnership verifies the discipline behind `//@ owned T.f` (maps stored in field f are reachable only
+// through that field): every store to the field stores a fresh make(map), and every value loaded from
+// the field is used only as the operand of a map operation. Returns human-readable violations.
+func (p *Program) checkOwnership() []string {
+	var out []string
+	if len(p.specs.Owned) == 0 {
+		return nil
+	}
+	fieldName := func(fa *ssa.FieldAddr) string {
+		stt := fa.X.Type().Underlying().(*types.Pointer).Elem()
+		return typeStr(stt) + "." + stt.Underlying().(*types.Struct).Field(fa.Field).Name()
+	}
+	var visit func(fn *ssa.Function)
+	seen := map[*ssa.Function]bool{}
+	visit = func(fn *ssa.Function) {
+		if seen[fn] {
+			return
+		}
+		seen[fn] = true
+		for _, b := range fn.Blocks {
+			for _, ins := range b.Instrs {
+				switch ins := ins.(type) {
+				case *ssa.Store:
+					if fa, ok := ins.Addr.(*ssa.FieldAddr); ok && p.specs.Owned[fieldName(fa)] {
+						if _, ok := ins.Val.(*ssa.MakeMap); !ok {
+							out = append(out, fmt.Sprintf("%s: store of a non-fresh map into owned field %s (%s)", fn.String(), fieldName(fa), posStr(p.fset, ins.Pos())))
+						}
+					}
+				case *ssa.UnOp:
+					fa, ok := ins.X.(*ssa.FieldAddr)
+					if !ok || ins.Op != token.MUL || !p.specs.Owned[fieldName(fa)] {
+						continue
+					}
+					for _, r := range *ins.Referrers() {
+						switch r := r.(type) {
+						case *ssa.Lookup, *ssa.MapUpdate, *ssa.Range, *ssa.DebugRef:
+						case *ssa.Call:
+							if bi, ok := r.Call.Value.(*ssa.Builtin); ok && (bi.Name() == "len" || bi.Name() == "delete") {
+								continue
+							}
+							out = append(out, fmt.Sprintf("%s: map of owned field %s escapes into a call (%s)", fn.String(), fieldName(fa), posStr(p.fset, r.Pos())))
+						default:
+							out = append(out, fmt.Sprintf("%s: map of owned field %s escapes (%T at %s)", fn.String(), fieldName(fa), r, posStr(p.fset, ins.Pos())))
+						}
+					}
+				case *ssa.MakeMap:
+					// a map made for an owned field must not be used elsewhere
+					owned := false
+					for _, r := range *ins.Referrers() {
+						if st, ok := r.(*ssa.Store); ok && st.Val == ins {
+							if fa, ok := st.Addr.(*ssa.FieldAddr); ok && p.specs.Owned[fieldName(fa)] {
+								owned = true
+							}
+						}
+					}
+					if owned {
+						for _, r := range *ins.Referrers() {
+							switch r := r.(type) {
+							case *ssa.Store, *ssa.DebugRef, *ssa.MapUpdate:
+								_ = r
+							default:
+								out = append(out, fmt.Sprintf("%s: map made for an owned field is also used elsewhere (%T)", fn.String(), r))
+							}
+						}
+					}
+				}
+			}
+		}
+		for _, af := range fn.AnonFuncs {
+			visit(af)
+		}
+	}
+	for _, sp := range p.byName {
+		for _, m := range sp.Members {
+			switch m := m.(type) {
+			case *ssa.Function:
+				visit(m)
+			case *ssa.Type:
+				for _, t := range []types.Type{m.Type(), types.NewPointer(m.Type())} {
+					ms := p.prog.MethodSets.MethodSet(t)
+					for i := 0; i < ms.Len(); i++ {
+						if f := p.prog.MethodValue(ms.At(i)); f != nil {
+							visit(f)
+						}
+					}
+				}
+			}
+		}
+	}
+	return out
+}
